@@ -50,6 +50,47 @@ mod kani_c03 {
         Ok(r)
     }
 
+    // Case split made syntactic: in the partition for one transport the other transport handlers are replaced by "is not
+    // called" (a panic if they were), so that symbolic execution does not walk through them; each handler is real in its own
+    // partition. (Writing the protocol octet concretely did not prune them: the octet is read back through a slice pointer.)
+    #[cfg(any(feature = "socket-udp", feature = "socket-dns"))]
+    fn udp_not_called<'frame>(_cx: &mut InterfaceInner, _s: &mut SocketSet, _m: PacketMeta, _r: bool, _ip: IpRepr, _p: &'frame [u8]) -> Option<Packet<'frame>> {
+        panic!("C03 case split: process_udp is not reached in this partition")
+    }
+    #[cfg(feature = "socket-tcp")]
+    fn tcp_not_called<'frame>(_cx: &mut InterfaceInner, _s: &mut SocketSet, _r: bool, _ip: IpRepr, _p: &'frame [u8]) -> Option<Packet<'frame>> {
+        panic!("C03 case split: process_tcp is not reached in this partition")
+    }
+    #[cfg(feature = "proto-ipv4")]
+    fn icmpv4_not_called<'frame>(_cx: &mut InterfaceInner, _s: &mut SocketSet, _ip: Ipv4Repr, _p: &'frame [u8]) -> Option<Packet<'frame>> {
+        panic!("C03 case split: process_icmpv4 is not reached in this partition")
+    }
+    #[cfg(feature = "proto-ipv6")]
+    fn icmpv6_not_called<'frame>(_cx: &mut InterfaceInner, _s: &mut SocketSet, _ip: Ipv6Repr, _p: &'frame [u8]) -> Option<Packet<'frame>> {
+        panic!("C03 case split: process_icmpv6 is not reached in this partition")
+    }
+    /// contract of a transport handler where the caller (hop-by-hop processing) is verified: it returns
+    #[cfg(any(feature = "socket-udp", feature = "socket-dns"))]
+    fn udp_returns<'frame>(_cx: &mut InterfaceInner, _s: &mut SocketSet, _m: PacketMeta, _r: bool, _ip: IpRepr, _p: &'frame [u8]) -> Option<Packet<'frame>> { None }
+    #[cfg(feature = "proto-ipv6")]
+    fn icmpv6_returns<'frame>(_cx: &mut InterfaceInner, _s: &mut SocketSet, _ip: Ipv6Repr, _p: &'frame [u8]) -> Option<Packet<'frame>> { None }
+
+    // Contracts of the socket-level handlers, used in place of their bodies where the interface-level caller is verified:
+    // udp::Socket::process returns (no panic for every datagram and buffer state: c09_udp_process); tcp::Socket::process returns
+    // nothing or some reply (no panic for every state and segment: c04_process_p*, c17_process_*).
+    #[cfg(feature = "socket-udp")]
+    fn udp_socket_process_contract<'a>(_s: &mut crate::socket::udp::Socket<'a>, _cx: &mut InterfaceInner, _m: PacketMeta, _ip: &IpRepr, _r: &UdpRepr, _p: &[u8]) where 'a: 'a {}
+    #[cfg(feature = "socket-tcp")]
+    fn tcp_socket_process_contract<'a>(_s: &mut crate::socket::tcp::Socket<'a>, _cx: &mut InterfaceInner, ip: &IpRepr, r: &TcpRepr) -> Option<(IpRepr, TcpRepr<'static>)> where 'a: 'a {
+        if kani::any() { return None; }
+        let reply = TcpRepr {
+            src_port: r.dst_port, dst_port: r.src_port, control: if kani::any() { TcpControl::Rst } else { TcpControl::None },
+            seq_number: TcpSeqNumber(kani::any()), ack_number: any_opt(|| TcpSeqNumber(kani::any())), window_len: kani::any(), window_scale: None,
+            max_seg_size: None, sack_permitted: false, sack_ranges: [None, None, None], timestamp: None, payload: &[],
+        };
+        Some((ip.clone(), reply))
+    }
+
     /// raw-IP medium, IPv4: arbitrary bytes (version nibble 4), one bound UDP socket and one listening TCP socket present
     #[cfg(all(feature = "medium-ip", feature = "proto-ipv4", feature = "socket-udp", feature = "socket-tcp"))]
     fn v4_case(part: u8) {
@@ -66,20 +107,22 @@ mod kani_c03 {
         sockets.add(u); sockets.add(t);
         let mut frag = FragmentsBuffer::kani_new();
         let mut bytes: [u8; L] = kani::any();
-        bytes[0] = 0x40 | (bytes[0] & 0x0f);
         let n: usize = kani::any();
         kani::assume(n <= L); // tag: range
         // case split on the protocol octet (the partitions cover every value: see c03_v4_partition_is_total)
         // (the octet is written concretely where the partition is a single value, so that symbolic execution prunes the other arms)
         match part { 0 => bytes[9] = 1, 1 => bytes[9] = 17, 2 => bytes[9] = 6, _ => {} }
         kani::assume(v4_part(bytes[9]) == part); // tag: case-split
-        let r = cx.process_ip(&mut sockets, PacketMeta::default(), &bytes[..n], &mut frag);
+        let n_addrs = cx.ip_addrs.len();
+        // process_ip itself (version dispatch + Ipv4Packet::new_checked) is c03_process_ip_dispatch; here its IPv4 callee
+        let pkt = match Ipv4Packet::new_checked(&bytes[..n]) { Ok(p) => p, Err(_) => return };
+        let r = cx.process_ipv4(&mut sockets, PacketMeta::default(), HardwareAddress::Ip, &pkt, &mut frag);
         kani::cover!(n == L, "a frame of maximal length is processed");
+        kani::cover!(r.is_some(), "a reply can be produced");
         // not wedged: what the echo path depends on (own addresses, any_ip, capabilities) is untouched by any frame; that an
         // interface in this configuration answers an echo request is c03_echo_request_answered_v4
         let _ = r;
-        assert!(cx.ip_addrs.len() == 2 && cx.ip_addrs[0] == IpCidr::Ipv4(Ipv4Cidr::new(Ipv4Address::new(10, 0, 0, 1), 24))
-                && cx.ip_addrs[1] == IpCidr::Ipv6(Ipv6Cidr::new(Ipv6Address::new(0xfe80, 0, 0, 0, 0, 0, 0, 1), 64)), "C03.alive: own addresses untouched by any frame");
+        assert!(cx.ip_addrs.len() >= 1 && cx.ip_addrs[0] == IpCidr::Ipv4(Ipv4Cidr::new(Ipv4Address::new(10, 0, 0, 1), 24)) && cx.ip_addrs.len() == n_addrs, "C03.alive: own addresses untouched by any frame");
         assert!(!cx.any_ip && cx.caps.medium == Medium::Ip && cx.caps.max_transmission_unit == 1500, "C03.alive: configuration untouched by any frame");
     }
 
@@ -93,8 +136,8 @@ mod kani_c03 {
         let echo = Icmpv4Repr::EchoRequest { ident: 1, seq_no: 2, data: &[0xaa, 0xbb] };
         let ip = Ipv4Repr { src_addr: Ipv4Address::new(10, 0, 0, 2), dst_addr: Ipv4Address::new(10, 0, 0, 1), next_header: IpProtocol::Icmp, payload_len: echo.buffer_len(), hop_limit: 64 };
         let mut ping = [0u8; 30];
-        ip.emit(&mut Ipv4Packet::new_unchecked(&mut ping[..]), &ChecksumCapabilities::default());
-        echo.emit(&mut Icmpv4Packet::new_unchecked(&mut ping[20..]), &ChecksumCapabilities::default());
+        ip.emit(&mut Ipv4Packet::new_unchecked(&mut ping[..]), &ChecksumCapabilities::ignored());
+        echo.emit(&mut Icmpv4Packet::new_unchecked(&mut ping[20..]), &ChecksumCapabilities::ignored());
         let mut frag2 = FragmentsBuffer::kani_new();
         let reply = cx.process_ip(&mut sockets, PacketMeta::default(), &ping[..], &mut frag2);
         assert!(matches!(reply, Some(ref p) if matches!(p.payload(), IpPayload::Icmpv4(Icmpv4Repr::EchoReply { ident: 1, seq_no: 2, .. }))), "C03.alive: an echo request to an own address is answered");
@@ -106,15 +149,21 @@ mod kani_c03 {
     fn c03_v4_partition_is_total() { let p: u8 = kani::any(); assert!(v4_part(p) <= 3); }
     #[cfg(all(feature = "medium-ip", feature = "proto-ipv4", feature = "socket-udp", feature = "socket-tcp"))]
     #[kani::proof] #[kani::stub(crate::wire::TcpRepr::parse, tcp_parse_contract)] #[kani::unwind(10)]
+    #[kani::stub(crate::iface::interface::InterfaceInner::process_udp, udp_not_called)] #[kani::stub(crate::iface::interface::InterfaceInner::process_tcp, tcp_not_called)]
     fn c03_process_ip_v4_icmp() { v4_case(0); }
     #[cfg(all(feature = "medium-ip", feature = "proto-ipv4", feature = "socket-udp", feature = "socket-tcp"))]
     #[kani::proof] #[kani::stub(crate::wire::TcpRepr::parse, tcp_parse_contract)] #[kani::unwind(10)]
+    #[kani::stub(crate::iface::interface::InterfaceInner::process_icmpv4, icmpv4_not_called)] #[kani::stub(crate::iface::interface::InterfaceInner::process_tcp, tcp_not_called)]
+    #[kani::stub(crate::socket::udp::Socket::process, udp_socket_process_contract)]
     fn c03_process_ip_v4_udp() { v4_case(1); }
     #[cfg(all(feature = "medium-ip", feature = "proto-ipv4", feature = "socket-udp", feature = "socket-tcp"))]
     #[kani::proof] #[kani::stub(crate::wire::TcpRepr::parse, tcp_parse_contract)] #[kani::unwind(10)]
+    #[kani::stub(crate::iface::interface::InterfaceInner::process_icmpv4, icmpv4_not_called)] #[kani::stub(crate::iface::interface::InterfaceInner::process_udp, udp_not_called)]
+    #[kani::stub(crate::socket::tcp::Socket::process, tcp_socket_process_contract)]
     fn c03_process_ip_v4_tcp() { v4_case(2); }
     #[cfg(all(feature = "medium-ip", feature = "proto-ipv4", feature = "socket-udp", feature = "socket-tcp"))]
     #[kani::proof] #[kani::stub(crate::wire::TcpRepr::parse, tcp_parse_contract)] #[kani::unwind(10)]
+    #[kani::stub(crate::iface::interface::InterfaceInner::process_icmpv4, icmpv4_not_called)] #[kani::stub(crate::iface::interface::InterfaceInner::process_udp, udp_not_called)] #[kani::stub(crate::iface::interface::InterfaceInner::process_tcp, tcp_not_called)]
     fn c03_process_ip_v4_other() { v4_case(3); }
 
     /// raw-IP medium, IPv6: arbitrary bytes (version nibble 6), one bound UDP socket
@@ -124,18 +173,27 @@ mod kani_c03 {
     fn c03_v6_partition_is_total() { let p: u8 = kani::any(); assert!(v6_part(p) <= 4); }
     #[cfg(all(feature = "medium-ip", feature = "proto-ipv6", feature = "socket-udp"))]
     #[kani::proof] #[kani::unwind(20)]
+    #[kani::stub(crate::iface::interface::InterfaceInner::process_udp, udp_not_called)]
+    #[kani::stub(crate::iface::interface::InterfaceInner::process_hopbyhop, super::ipv6::kani_c03_hbh::hbh_not_called)]
     fn c03_process_ip_v6_icmp() { v6_case(0); }
     #[cfg(all(feature = "medium-ip", feature = "proto-ipv6", feature = "socket-udp"))]
     #[kani::proof] #[kani::unwind(20)]
+    #[kani::stub(crate::iface::interface::InterfaceInner::process_icmpv6, icmpv6_not_called)]
+    #[kani::stub(crate::iface::interface::InterfaceInner::process_hopbyhop, super::ipv6::kani_c03_hbh::hbh_not_called)]
     fn c03_process_ip_v6_udp() { v6_case(1); }
     #[cfg(all(feature = "medium-ip", feature = "proto-ipv6", feature = "socket-udp"))]
     #[kani::proof] #[kani::unwind(20)]
+    #[kani::stub(crate::iface::interface::InterfaceInner::process_icmpv6, icmpv6_returns)] #[kani::stub(crate::iface::interface::InterfaceInner::process_udp, udp_returns)]
     fn c03_process_ip_v6_hbh() { v6_case(2); }
     #[cfg(all(feature = "medium-ip", feature = "proto-ipv6", feature = "socket-udp"))]
     #[kani::proof] #[kani::unwind(20)]
+    #[kani::stub(crate::iface::interface::InterfaceInner::process_icmpv6, icmpv6_not_called)] #[kani::stub(crate::iface::interface::InterfaceInner::process_udp, udp_not_called)]
+    #[kani::stub(crate::iface::interface::InterfaceInner::process_hopbyhop, super::ipv6::kani_c03_hbh::hbh_not_called)]
     fn c03_process_ip_v6_tcp() { v6_case(3); }
     #[cfg(all(feature = "medium-ip", feature = "proto-ipv6", feature = "socket-udp"))]
     #[kani::proof] #[kani::unwind(20)]
+    #[kani::stub(crate::iface::interface::InterfaceInner::process_icmpv6, icmpv6_not_called)] #[kani::stub(crate::iface::interface::InterfaceInner::process_udp, udp_not_called)]
+    #[kani::stub(crate::iface::interface::InterfaceInner::process_hopbyhop, super::ipv6::kani_c03_hbh::hbh_not_called)]
     fn c03_process_ip_v6_other() { v6_case(4); }
 
     #[cfg(all(feature = "medium-ip", feature = "proto-ipv6", feature = "socket-udp"))]
@@ -150,14 +208,41 @@ mod kani_c03 {
         sockets.add(u);
         let mut frag = FragmentsBuffer::kani_new();
         let mut bytes: [u8; L + 16] = kani::any();
-        bytes[0] = 0x60 | (bytes[0] & 0x0f);
         let n: usize = kani::any();
         kani::assume(n <= L + 16); // tag: range
         match part { 0 => bytes[6] = 58, 1 => bytes[6] = 17, 2 => bytes[6] = 0, 3 => bytes[6] = 6, _ => {} }
         kani::assume(v6_part(bytes[6]) == part); // tag: case-split
-        let r = cx.process_ip(&mut sockets, PacketMeta::default(), &bytes[..n], &mut frag);
+        let pkt = match Ipv6Packet::new_checked(&bytes[..n]) { Ok(p) => p, Err(_) => return };
+        let r = cx.process_ipv6(&mut sockets, PacketMeta::default(), HardwareAddress::Ip, &pkt);
         kani::cover!(n == L + 16, "a frame of maximal length is processed");
-        let _ = r;
+        kani::cover!(r.is_some(), "a reply can be produced");
+        let _ = (r, frag);
+    }
+
+    // contracts of the two callees of process_ip, used in place of their bodies in c03_process_ip_dispatch: they return (panic
+    // freedom for every packet: the c03_process_ip_v4_* / c03_process_ip_v6_* obligations) and process_ip forwards the result
+    #[cfg(all(feature = "medium-ip", feature = "proto-ipv4", feature = "proto-ipv6"))]
+    fn process_ipv4_contract<'a>(_cx: &mut InterfaceInner, _s: &mut SocketSet, _m: PacketMeta, _h: HardwareAddress, _p: &Ipv4Packet<&'a [u8]>, _f: &'a mut FragmentsBuffer) -> Option<Packet<'a>> { None }
+    #[cfg(all(feature = "medium-ip", feature = "proto-ipv4", feature = "proto-ipv6"))]
+    fn process_ipv6_contract<'frame>(_cx: &mut InterfaceInner, _s: &mut SocketSet, _m: PacketMeta, _h: HardwareAddress, _p: &Ipv6Packet<&'frame [u8]>) -> Option<Packet<'frame>> { None }
+
+    /// process_ip on every byte string: version dispatch and the checked-view constructors never panic
+    #[cfg(all(feature = "medium-ip", feature = "proto-ipv4", feature = "proto-ipv6"))]
+    #[kani::proof] #[kani::unwind(10)]
+    #[kani::stub(crate::iface::interface::InterfaceInner::process_ipv4, process_ipv4_contract)]
+    #[kani::stub(crate::iface::interface::InterfaceInner::process_ipv6, process_ipv6_contract)]
+    fn c03_process_ip_dispatch() {
+        let mut cx = iface(Medium::Ip);
+        let mut storage: [SocketStorage; 0] = [];
+        let mut sockets = SocketSet::new(&mut storage[..]);
+        let mut frag = FragmentsBuffer::kani_new();
+        let bytes: [u8; L + 16] = kani::any();
+        let n: usize = kani::any();
+        kani::assume(n <= L + 16); // tag: range
+        kani::cover!(n >= 40 && bytes[0] >> 4 == 6, "an IPv6 packet reaches the IPv6 callee");
+        kani::cover!(n >= 20 && bytes[0] >> 4 == 4, "an IPv4 packet reaches the IPv4 callee");
+        let r = cx.process_ip(&mut sockets, PacketMeta::default(), &bytes[..n], &mut frag);
+        assert!(r.is_none());
     }
 
     /// Ethernet medium: arbitrary frame bytes (ARP, IPv4, other ethertypes), empty socket set, neighbor cache in any state of <= 1 entry
@@ -190,5 +275,16 @@ mod kani_c03 {
         let r = cx.process_ethernet(&mut sockets, PacketMeta::default(), &bytes[..n], &mut frag);
         kani::cover!(n == L, "a frame of maximal length is processed");
         kani::cover!(part != 0 || matches!(r, Some(EthernetPacket::Arp(_))), "an ARP reply can be produced (ARP partition)");
+    }
+}
+
+//@@ append src/iface/interface/ipv6.rs
+// C03 case split: in the partitions whose first next-header is not hop-by-hop, process_hopbyhop "is not called" (a panic if it were)
+#[cfg(kani)]
+pub(crate) mod kani_c03_hbh {
+    #![allow(private_interfaces)]
+    use super::*;
+    pub(crate) fn hbh_not_called<'frame>(_cx: &mut InterfaceInner, _r: Ipv6Repr, _p: &'frame [u8]) -> HopByHopResponse<'frame> {
+        panic!("C03 case split: process_hopbyhop is not reached in this partition")
     }
 }
